@@ -47,6 +47,8 @@ func presetFor(property, variant string) string {
 	switch property {
 	case "C01", "C03", "C04":
 		return "cron-tick"
+	case "C02", "C05", "C06", "C07", "C08", "C09", "C10", "C11", "C12", "C13", "C15", "C20":
+		return "full"
 	}
 	return ""
 }
